@@ -472,6 +472,9 @@ class Fn:
                     inner = self.canon(op_place(aops[i]), see_through, _depth + 1)
                     cp = self._append(inner, list(cp[2:]))
                     continue
+                if kd.get("k") in ("closure", "tuple") and i < len(aops) and op_const(aops[i]) is not None:
+                    cp = (("const", repr(self.const_value(op_const(aops[i])))),) + tuple(cp[2:])
+                    break
             break
         return cp
 
